@@ -13,6 +13,7 @@ from vlib import core, corr
 
 DEPENDS = ["RecBase", "Reno", "Cubic", "Pacer", "Recovery", "RecoveryFloat", "C08Consts", "RecoveryProofs",
            "RenoProofs", "CubicProofs", "RangeSet", "Base", "Tok", "C08"]
+GENERATORS = ["c08_consts"]
 TRUSTED_BASE = [
     "vm_compute evaluation of the PrimFloat instance (coqc, no extraction); Coq's primitive floats = IEEE binary64 "
     "round-to-nearest-even, the same arithmetic CPython uses",
